@@ -73,6 +73,25 @@ def polyContains (vs : List (Nat → α)) (p : Nat → α) : Bool :=
   let es := polyEdges vs
   Gen.poly_final ((es.filter fun e => polyEdgeCounts e.1 e.2 p).length) (es.any fun e => segContains e.1 e.2 (cross e.1 e.2) p)
 
+/-- the sum that `PolygonTensor.area` forms (twice the signed area; the result is half its absolute value):
+    `Σ_{i ∈ range(lo, hi)} det[v_{r₀(i)}, v_{r₁(i)}, v_{r₂(i)}]` with the row table and the range of the source -/
+def polyFan2 (vs : List (Nat → α)) : α :=
+  let r := Gen.area_range vs.length
+  ((List.range (r.2 - r.1)).map fun k =>
+      let rows := Gen.area_rows (r.1 + k)
+      let v : Nat → Nat → α := fun j => vs.getD (rows.getD j 0) (fun _ => 0)
+      det3 (v 0) (v 1) (v 2)).foldl (· + ·) 0
+
+/-- the numerators `Polygon.centroid` forms for the coordinate `c`: `Σ_i det_i · (sum of coordinate c over the three vertices of the
+    i-th triangle of the fan)`, i.e. `6 · Σ wᵢ cᵢ` with `wᵢ = det_i / 2`, `cᵢ` = mean of the three vertices; the centroid is this
+    over `3 · polyFan2` (`np.average(centroids, weights=weights)`) -/
+def polyMoment6 (c : Nat) (vs : List (Nat → α)) : α :=
+  let r := Gen.centroid_range vs.length
+  ((List.range (r.2 - r.1)).map fun k =>
+      let rows := Gen.centroid_rows (r.1 + k)
+      let v : Nat → Nat → α := fun j => vs.getD (rows.getD j 0) (fun _ => 0)
+      det3 (v 0) (v 1) (v 2) * (v 0 c + v 1 c + v 2 c)).foldl (· + ·) 0
+
 /-- `SegmentTensor.intersect(SegmentTensor)` in the plane: the meet of the supporting lines if it is non-zero and both
     segments contain it -/
 def segIntersect (a b c d : Nat → α) : Option (Nat → α) :=
